@@ -151,6 +151,39 @@ func firstGreaterConst(f *ast.File, fn string) (string, error) {
 	return out, nil
 }
 
+// firstHeaderGet: the header name in the first `<x>.Header.Get("<name>")` of a function
+func firstHeaderGet(f *ast.File, fn string) (string, error) {
+	fd := findFunc(f, fn)
+	if fd == nil {
+		return "", fmt.Errorf("func %s not found", fn)
+	}
+	out := ""
+	ast.Inspect(fd, func(n ast.Node) bool {
+		if out != "" {
+			return false
+		}
+		ce, ok := n.(*ast.CallExpr)
+		if !ok || len(ce.Args) != 1 {
+			return true
+		}
+		sel, ok := ce.Fun.(*ast.SelectorExpr)
+		if !ok || sel.Sel.Name != "Get" {
+			return true
+		}
+		if in, ok := sel.X.(*ast.SelectorExpr); !ok || in.Sel.Name != "Header" {
+			return true
+		}
+		if bl, ok := ce.Args[0].(*ast.BasicLit); ok && bl.Kind == token.STRING {
+			out, _ = strconv.Unquote(bl.Value)
+		}
+		return true
+	})
+	if out == "" {
+		return "", fmt.Errorf("no Header.Get(\"...\") in %s", fn)
+	}
+	return out, nil
+}
+
 func stringSliceVar(f *ast.File, name string) ([]string, error) {
 	for _, d := range f.Decls {
 		gd, ok := d.(*ast.GenDecl)
@@ -243,6 +276,11 @@ func syncC07Consts(repo string) (string, string, error) {
 	if err := def("fork_h3_settings_cap", v, e); err != nil {
 		return "", "", err
 	}
+	guard, err := firstHeaderGet(tr, "autoDecodeResponseBody")
+	if err != nil {
+		return "", "", err
+	}
+	sb.WriteString("Definition fork_autodecode_guard_header : bytes := " + hk.CoqStr(guard) + ".\n")
 	ts, err := stringSliceVar(dec, "textContentTypes")
 	if err != nil {
 		return "", "", err
